@@ -520,3 +520,121 @@ func hasConvertUser(v ssa.Value) bool {
 	}
 	return false
 }
+
+func init() {
+	register("SER-13", "the primitive writers and readers of the stream agree on width, byte order and encoding", 4, ruleSER13)
+}
+
+// SER-13: SER-1 compares which primitives are written and read in which order; this rule compares the two halves of
+// each primitive codec themselves.
+func ruleSER13(c *Ctx) {
+	p := c.P
+	type codec struct{ orders, widths, conv []string }
+	describe := func(fn *ssa.Function) codec {
+		var d codec
+		for _, b := range fn.Blocks {
+			for _, in := range b.Instrs {
+				switch x := in.(type) {
+				case *ssa.Alloc:
+					// make([]byte, k) with constant k is a slice of new [k]byte
+					if pt, ok := x.Type().(*types.Pointer); ok {
+						if arr, ok := pt.Elem().(*types.Array); ok {
+							if bt, ok := arr.Elem().(*types.Basic); ok && bt.Kind() == types.Uint8 {
+								d.widths = append(d.widths, fmt.Sprint(arr.Len()))
+							}
+						}
+					}
+				case *ssa.MakeSlice:
+					if k, ok := constInt(x.Len); ok {
+						d.widths = append(d.widths, fmt.Sprint(k))
+					}
+				case ssa.CallInstruction:
+					name := calleeName(x)
+					if strings.HasPrefix(name, "(encoding/binary.") {
+						// (encoding/binary.littleEndian).PutUint64 -> littleEndian/64
+						ord := strings.TrimPrefix(name, "(encoding/binary.")
+						ord = ord[:strings.Index(ord, ")")]
+						bits := strings.TrimLeft(name[strings.LastIndex(name, ".")+1:], "PutUintAppend")
+						d.orders = append(d.orders, ord+"/"+bits)
+					}
+					if strings.HasPrefix(name, "math.Float") {
+						d.conv = append(d.conv, strings.NewReplacer("frombits", "", "bits", "").Replace(strings.TrimPrefix(name, "math.")))
+					}
+				}
+			}
+		}
+		sort.Strings(d.orders)
+		sort.Strings(d.widths)
+		sort.Strings(d.conv)
+		return d
+	}
+	for _, k := range []string{"String", "Int", "Bool", "Float"} {
+		w, r := p.Func("ast", "Write"+k+"ToWriter"), p.Func("ast", "Read"+k+"FromReader")
+		if w == nil || r == nil {
+			c.AnchorLost("Write" + k + "ToWriter / Read" + k + "FromReader")
+			continue
+		}
+		dw, dr := describe(w), describe(r)
+		same := strings.Join(uniq(dw.orders), ",") == strings.Join(uniq(dr.orders), ",") && strings.Join(uniq(dw.widths), ",") == strings.Join(uniq(dr.widths), ",") && strings.Join(dw.conv, ",") == strings.Join(dr.conv, ",")
+		nonEmpty := len(dw.widths) > 0
+		ok := same && nonEmpty
+		detail := fmt.Sprintf("writer: order %v width %v conv %v; reader: order %v width %v conv %v", uniq(dw.orders), uniq(dw.widths), dw.conv, uniq(dr.orders), uniq(dr.widths), dr.conv)
+		if k == "Bool" && ok {
+			// writer stores constant T when the flag is true; reader returns byte == T
+			var trueConst, falseConst int64 = -1, -1
+			flag := ssa.Value(w.Params[1])
+			for _, b := range w.Blocks {
+				for _, in := range b.Instrs {
+					st, isSt := in.(*ssa.Store)
+					if !isSt {
+						continue
+					}
+					if _, isIdx := st.Addr.(*ssa.IndexAddr); !isIdx {
+						continue
+					}
+					kv, isK := constInt(st.Val)
+					if !isK {
+						continue
+					}
+					dom := edgesDominate(w, st, func(bb *ssa.BasicBlock, si int) bool {
+						iff, isIf := bb.Instrs[len(bb.Instrs)-1].(*ssa.If)
+						if !isIf {
+							return false
+						}
+						kind, sTrue, okc := condOn(iff.Cond, func(v ssa.Value) bool { return v == flag })
+						return okc && kind == "bool" && si == sTrue
+					})
+					if dom {
+						trueConst = kv
+					}
+					domF := edgesDominate(w, st, func(bb *ssa.BasicBlock, si int) bool {
+						iff, isIf := bb.Instrs[len(bb.Instrs)-1].(*ssa.If)
+						if !isIf {
+							return false
+						}
+						kind, sTrue, okc := condOn(iff.Cond, func(v ssa.Value) bool { return v == flag })
+						return okc && kind == "bool" && si == 1-sTrue
+					})
+					if domF {
+						falseConst = kv
+					}
+				}
+			}
+			okR := false
+			for _, ret := range returnsOf(r) {
+				if len(ret.Results) != 2 || !isNilConst(ret.Results[1]) {
+					continue
+				}
+				if bo, isBo := ret.Results[0].(*ssa.BinOp); isBo {
+					kv, isK := constInt(bo.Y)
+					if isK && ((bo.Op == token.EQL && kv == trueConst) || (bo.Op == token.NEQ && kv == falseConst)) {
+						okR = true
+					}
+				}
+			}
+			ok = trueConst >= 0 && okR
+			detail += fmt.Sprintf("; writer stores %d for true and %d for false, reader decodes accordingly: %v", trueConst, falseConst, okR)
+		}
+		c.Check(ok, "Write"+k+"ToWriter / Read"+k+"FromReader agree", p.Pos(w.Pos()), detail, "the two halves of the "+k+" codec disagree ("+detail+"): every stored knowledge base is read back with other values")
+	}
+}
